@@ -1,24 +1,24 @@
 SPECIFICATION MCSpec
 VIEW View
 CONSTANTS
-  Streams = {1, 3}
+  Streams = {}
   Pushed = {}
-  Remote = {}
+  Remote = {1, 3}
   InitWin = 1
   ConnWin = 2
   RecvWin = 4
   MaxBuf = 4
   MaxSend0 = 1
   NCall = 2
-  NApp = 1
-  NPeer = 2
+  NApp = 2
+  NPeer = 3
   MaxData = 1
-  CallKinds = {"poll_ready", "poll_reset"}
-  AppKinds = {"request", "request_keep", "send_reset", "drop_send", "drop_recv"}
-  PeerKinds = {"SET_MAXC", "HEADERS", "RST", "EOF"}
+  CallKinds = {"poll_capacity", "poll_reset"}
+  AppKinds = {"accept", "send_response", "reserve", "send_data", "send_reset", "drop_send", "drop_recv"}
+  PeerKinds = {"REQ", "WU", "RST", "EOF"}
   IwsVals = {}
-  MaxcVals = {0, 2}
-  ReqEos = {FALSE, TRUE}
+  MaxcVals = {}
+  ReqEos = {FALSE}
   Allow = {"shared_slot", "push_after_recv_drop", "cancel_pending_open"}
   ExportLen = 0
 INVARIANT InvC06
